@@ -114,7 +114,22 @@ Definition run (v : variant) (ws : list watcher) (sched : list event) :=
 Definition outcome_exn (how : via) (raised : bool * bool) : option exn :=
   if fst raised || snd raised then Some (exn_of how) else None.
 
-(** [Context._sudo]'s own watcher, appended after the caller's. *)
-Definition sudo_watcher (prompt password : string) : watcher :=
-  WFail (lit prompt) (password ++ String "010"%char "")%string
-        (lit ("Sorry, try again." ++ String "010"%char "")%string).
+(** [Context._sudo]'s own watcher: pattern [re.escape(prompt)], response the
+    effective password ([kwargs.pop("password", config.sudo.password)]) and a newline. *)
+Definition sudo_watcher (su : sudo_info) : watcher :=
+  WFail (lit (su_prompt su))
+        (password_line (match su_kw_password su with Some p => p | None => su_cfg_password su end))
+        (lit ("Sorry, try again." ++ String (ascii_of_nat 10) "")%string).
+
+(** The watchers in effect for one call.
+    [run]: [opts["watchers"]] = the keyword argument unless None, else [config.run.watchers]
+    ([_unify_kwargs_with_config]); [self.watchers] takes it when truthy, else stays [].
+    [_sudo]: [list(kwargs.pop("watchers", config.run.watchers))] -- a COPY (fix
+    941d213: the caller's list is not touched, so reusing it for another call does
+    not accumulate responders) -- with the sudo watcher appended, handed on as the
+    keyword argument.
+    Driving the objects directly: the list handed over. *)
+Definition call_watchers (cfg_ws : list watcher) (kw_ws : option (list watcher))
+           (sudo : option sudo_info) : list watcher :=
+  match kw_ws with Some l => l | None => cfg_ws end
+  ++ match sudo with Some su => [sudo_watcher su] | None => [] end.
